@@ -59,6 +59,9 @@ pub struct Daemon {
     handle: Option<std::thread::JoinHandle<()>>,
     _main_mbox: Receiver<Message>,
     pub sent: u64,
+    /// No tee: publications are detected through the generation field of the file.
+    plain: bool,
+    gen_before_send: u16,
 }
 
 pub enum Wait {
@@ -89,7 +92,7 @@ impl Daemon {
             process_messages_with(ctx, tee, max_drift_ppb);
         });
         ready_rx.recv_timeout(Duration::from_secs(30)).expect("shm writer thread start");
-        Daemon { path: path.to_path_buf(), dbox, log, notify: rx, handle: Some(handle), _main_mbox: main_mbox, sent: 0 }
+        Daemon { path: path.to_path_buf(), dbox, log, notify: rx, handle: Some(handle), _main_mbox: main_mbox, sent: 0, plain: false, gen_before_send: 0 }
     }
 
     /// The same with the real ShmWriter itself as the sink (no tee in between: whatever the writer
@@ -111,16 +114,52 @@ impl Daemon {
             process_messages_with(ctx, writer, max_drift_ppb);
         });
         ready_rx.recv_timeout(Duration::from_secs(30)).expect("shm writer thread start");
-        Daemon { path: path.to_path_buf(), dbox, log, notify: rx, handle: Some(handle), _main_mbox: main_mbox, sent: 0 }
+        Daemon { path: path.to_path_buf(), dbox, log, notify: rx, handle: Some(handle), _main_mbox: main_mbox, sent: 0, plain: true, gen_before_send: 0 }
     }
 
     pub fn send(&mut self, m: Message) {
         self.sent += 1;
+        if self.plain {
+            self.gen_before_send = generation_of(&self.path).unwrap_or(0);
+        }
         self.dbox.send(&ChannelId::ShmWriter, m).expect("send to shm writer");
     }
 
     /// Wait for the publication caused by the last message.
     pub fn wait_publication(&mut self) -> Wait {
+        if self.plain {
+            // One message at a time: a completed publication shows as a new even generation.
+            let t0 = std::time::Instant::now();
+            let mut spins = 0u32;
+            loop {
+                let g = generation_of(&self.path).unwrap_or(0);
+                if g != self.gen_before_send && g % 2 == 0 && g != 0 {
+                    if let Ok(r) = read_fresh(&self.path) {
+                        self.log.lock().unwrap().push(r);
+                        return Wait::Published;
+                    }
+                }
+                spins += 1;
+                if spins > 200 {
+                    std::thread::sleep(Duration::from_micros(50));
+                }
+                if t0.elapsed() > Duration::from_secs(10) {
+                    break;
+                }
+            }
+            let _ = self.dbox.send(&ChannelId::ShmWriter, Message::ThreadAbort);
+            if let Some(h) = self.handle.take() {
+                let _ = h.join();
+            }
+            let g = generation_of(&self.path).unwrap_or(0);
+            if g != self.gen_before_send && g % 2 == 0 {
+                if let Ok(r) = read_fresh(&self.path) {
+                    self.log.lock().unwrap().push(r);
+                    return Wait::Published;
+                }
+            }
+            return Wait::NotPublished;
+        }
         match self.notify.recv_timeout(Duration::from_secs(10)) {
             Ok(()) => Wait::Published,
             Err(RecvTimeoutError::Timeout) => {
